@@ -352,6 +352,10 @@ func (s *state) visitPrint(node *ast.PrintNode) {
 		case "id", "noAutoescape":
 			// no implementation, they just serve as a marker to cancel autoescape.
 		default:
+			if dir.Name == "insertWordBreaks" || dir.Name == "changeNewlineToBr" {
+				// the Go directives escape their input themselves; the library functions do not.
+				directives = append(directives, &ast.PrintDirectiveNode{0, "escapeHtml", nil})
+			}
 			directives = append(directives, dir)
 			if impt := s.options.Formatter.Directive(directive); impt != "" {
 				s.funcsCalled[dir.Name] = impt
